@@ -352,7 +352,9 @@ func c19R8Numerals(L int, r *rand.Rand) []c19R8Str {
 	add("intdigits-negexp", c19R8Fit(L, func(d int) string {
 		return "+" + strconv.Itoa(1+r.Intn(9)) + c19R8Digits(r, d-1) + "E-" + strconv.Itoa(d-1-r.Intn(19))
 	}))
-	add("intdigits-fraction", c19R8Fit(L, func(d int) string { return c19R8Digits(r, d/2) + "." + c19R8Digits(r, d-d/2) + "e-" + strconv.Itoa(d/2) }))
+	add("intdigits-fraction", c19R8Fit(L, func(d int) string {
+		return c19R8Digits(r, d/2) + "." + c19R8Digits(r, d-d/2) + "e-" + strconv.Itoa(d/2)
+	}))
 	// fractions on and beside the middle between two float64
 	floats := []float64{9007199254740992, 9007199254740994, 1, 0.5, 4503599627370497, 1e22, 0.1, 123456789.125}
 	for i := 0; i < 5; i++ {
